@@ -479,6 +479,7 @@ def fit_newton_cg(
             f_g, x0, jac=True, hess=lambda x: hess(x)[2], method=method
         )
     fcn.vm.set_trans_var(s.x)
+    fcn.vm.remove_bound()
     xn = s.x
     ndf = s.x.shape[0]
     min_nll = s.fun
